@@ -3,3 +3,4 @@ pub mod model;
 pub mod props;
 pub mod util;
 pub mod fuzzglue;
+pub mod gen;
